@@ -15,6 +15,10 @@ CONSTANTS
   Triples = {{1, 2, 13}, {13, 14, 15}}
   SplitSizes = {2, 3, 4}
   AllCfgs = FALSE
+  IsRegSet = {FALSE}
+  EhSet = {0}
+  MaxCancel = 1
+  MaxRepliesC = 3
   Record = FALSE
   KnownMask = {"C05-merge-bypasses-target", "C05-mixed-kinds-first-record-dictates", "C05-equal-counter-scratchpad-first-wins"}
 INVARIANTS NoClauseFalsified
